@@ -97,7 +97,7 @@ def lineNat (P : Params α) (items : List (Item α)) (a : Option Nat) (b : Nat) 
 
 /-- adjustment ratio of a line with natural measures `(L, Y, Z)`; `none`: cannot be made to fit -/
 def ratioOf (lineW L Y Z : α) : Option α :=
-  if L < lineW then (if Y == k 0 then none else some ((lineW - L) / Y))
+  if L < lineW then (if Y ≤ k 0 then none else some ((lineW - L) / Y))
   else if lineW < L then (if Z == k 0 then none else some ((lineW - L) / Z))
   else some (k 0)
 
